@@ -256,6 +256,26 @@ def _run_chunk(args):
     return [int(x) for x in re.findall(r"-?\d+", m.group(1).replace("%Z", ""))], ""
 
 
+_ensured = set()
+
+
+def ensure_built(imports):
+    """Every module a case file imports must have a .vo: build the missing ones (a fresh restore has none, and a module
+    that no Properties file depends on - e.g. Model/Sweep - is not built by the Properties targets)."""
+    missing = []
+    for mod in imports.split():
+        rel = mod.replace(".", "/") + ".vo"
+        if rel in _ensured:
+            continue
+        _ensured.add(rel)
+        if os.path.exists(os.path.join(COQ, rel[:-1])) and not os.path.exists(os.path.join(COQ, rel)):
+            missing.append(rel)
+    if missing:
+        rc, out = run([os.path.join(VERIF, "setup.sh")] + missing, timeout=3000, cwd=VERIF)
+        if rc != 0:
+            raise RuntimeError("could not build " + " ".join(missing) + ": " + out[-2000:])
+
+
 def coq_compare(ctx, name, imports, pairs, chunk=400, prelude=""):
     """pairs: list of (model_expr : cv, expected : cv literal); prelude: Gallina text (Definitions shared by the
     cases, e.g. schemas) placed before them in every chunk file. Returns sorted list of
@@ -263,6 +283,7 @@ def coq_compare(ctx, name, imports, pairs, chunk=400, prelude=""):
     the case file does not compile (model not runnable)."""
     if not pairs:
         return []
+    ensure_built(imports)
     jobs = []
     for ci, start in enumerate(range(0, len(pairs), chunk)):
         path = os.path.join(ctx.work, f"{name}_{ci}.v")
@@ -279,6 +300,7 @@ def coq_compare(ctx, name, imports, pairs, chunk=400, prelude=""):
 
 def coq_eval(ctx, imports, expr):
     """Evaluate one expression with vm_compute and return Coq's printed answer (for replays)."""
+    ensure_built(imports)
     path = os.path.join(ctx.work, f"eval_{abs(hash(expr)) % 10**9}.v")
     with open(path, "w") as f:
         f.write(f"From BP Require Import Base.Prelude {imports}.\nEval vm_compute in ({expr}).\n")
